@@ -68,6 +68,12 @@ def run(cx):
         "is not decided"
     )
 
+    # ---- C20-MEMORY --------------------------------------------------------------------------
+    rule_pin_memory(cx, core)
+
+    # ---- C20-INPUTS --------------------------------------------------------------------------
+    rule_host_inputs_eval(cx, "C20-INPUTS")
+
     # ---- C20-PINKEY --------------------------------------------------------------------------
     r = cx.rule("C20-PINKEY", "every access to the simulated pin dictionaries uses the key _normalise_pin(pin) of the function's own pin parameter; nothing iterates, clears or bulk-updates them; _normalise_pin identifies exactly int n with its decimal string and keeps all other pins distinct", floor=10)
     pin_fns = ["pin_mode", "digital_write", "analog_write", "digital_read", "analog_read"]
@@ -142,51 +148,6 @@ def run(cx):
     distinct = len({(type(k).__name__, k) for k in keys}) == len(keys)
     clash = [(a, b) for i, a in enumerate(ints + names) for b in (ints + names)[i + 1:] if img[a] == img[b]]
     r.check(distinct, "_normalise_pin/distinct-pins-stay-distinct", (core, np_), f"different pins share one key: {clash[:3]} - a write to one would be read back on the other")
-
-    # ---- C20-READS ---------------------------------------------------------------------------
-    r = cx.rule("C20-READS", "digital_read = stored value, else HIGH for an INPUT_PULLUP pin, else LOW; analog_read = stored value else 0; analog_write stores a value clamped to 0..255; digital_write stores HIGH/LOW from truthiness", floor=8)
-    dr = core.func("digital_read")
-    tr = CondTrace(lambda s: isinstance(s, ast.Return))
-    tr.run_function(dr, frozenset({frozenset()}))
-    seen = set()
-    for ret, state in tr.hits:
-        rv = norm(Locals(dr).resolve(ret.value)) if ret.value is not None else "None"
-        for alt in state:
-            cs = conds(alt)
-            has = ("key in _digital_values", True) in cs
-            hasnot = ("key in _digital_values", False) in cs or ("key not in _digital_values", True) in cs
-            pull = any("INPUT_PULLUP" in t and "_pin_modes" in t and tv for t, tv in cs)
-            nopull = any("INPUT_PULLUP" in t and "_pin_modes" in t and not tv for t, tv in cs)
-            if rv.startswith("_digital_values"):
-                r.check(has or rv.startswith("_digital_values.get"), "digital_read/returns-stored-only-when-present", (core, ret), "stored value returned without a presence test")
-                seen.add("stored")
-            elif rv in ("HIGH", "1"):
-                r.check(hasnot and pull, "digital_read/HIGH-only-for-unwritten-pullup", (core, ret), f"HIGH is returned under {sorted(cs)}; expected: pin not written and mode INPUT_PULLUP")
-                seen.add("high")
-            elif rv in ("LOW", "0"):
-                r.check(hasnot and nopull, "digital_read/LOW-only-for-unwritten-non-pullup", (core, ret), f"LOW is returned under {sorted(cs)}")
-                seen.add("low")
-            else:
-                r.fail(f"digital_read/returns[{rv[:30]}]", (core, ret), f"unexpected return value {rv}")
-    r.check(seen >= {"stored", "high", "low"}, "digital_read/three-cases", (core, dr), f"digital_read distinguishes {sorted(seen)}; expected stored / pull-up HIGH / LOW")
-    ar = core.func("analog_read")
-    rets = [n for n in walk_local(ar) if isinstance(n, ast.Return)]
-    okr = len(rets) == 1 and norm(Locals(ar).resolve(rets[0].value)) in ("_analog_values.get(key, 0)",)
-    r.check(okr, "analog_read/stored-else-0", (core, ar), "analog_read must return the stored value, 0 when never written")
-    aw = core.func("analog_write")
-    stores = [n for n in walk_local(aw) if isinstance(n, ast.Assign) and isinstance(n.targets[0], ast.Subscript) and norm(n.targets[0].value) == "_analog_values"]
-    r.check(len(stores) == 1, "analog_write/one-store", (core, aw), "analog_write must store exactly once")
-    for s in stores:
-        v = Locals(aw).resolve(s.value)
-        iv = iv_eval(v, {})
-        r.check(iv.within(0, 255), "analog_write/clamped-0..255", (core, s), f"stored value `{norm(v)}` has range {iv}, expected within [0, 255]")
-        r.check("value" in norm(ast.Module(body=[ast.Expr(Locals(aw).resolve(x)) for x in ast.walk(v) if isinstance(x, ast.Name)], type_ignores=[])) or "value" in norm(v), "analog_write/stores-the-value", (core, s), "stored value does not derive from the value parameter")
-    dw = core.func("digital_write")
-    stores = [n for n in walk_local(dw) if isinstance(n, ast.Assign) and isinstance(n.targets[0], ast.Subscript) and norm(n.targets[0].value) == "_digital_values"]
-    okd = len(stores) == 1 and norm(stores[0].value) in ("HIGH if bool(value) else LOW", "HIGH if value else LOW", "LOW if not value else HIGH", "LOW if not bool(value) else HIGH")
-    r.check(okd, "digital_write/HIGH-iff-truthy", (core, dw), f"digital_write stores `{norm(stores[0].value) if stores else '?'}`")
-    hv, lv = try_const(ast.Name(id="HIGH"), core), try_const(ast.Name(id="LOW"), core)
-    r.check(hv == 1 and lv == 0, "Core/HIGH=1,LOW=0", (core.rel, 1), f"HIGH={hv!r} LOW={lv!r}")
 
     # ---- C20-MAP -----------------------------------------------------------------------------
     r = cx.rule("C20-MAP", "Utils.map returns to_low + (value-from_low)*(to_high-to_low)/(from_high-from_low) (rational normal form) and raises for from_low == from_high before dividing", floor=3)
@@ -278,36 +239,6 @@ def run(cx):
     from . import c10
     c10.rule_global_state(cx, "C20-INSTANCE-STATE", [utils, btn, pot, ult, ser], floor=15)
 
-    # ---- C20-SERIAL --------------------------------------------------------------------------
-    r = cx.rule("C20-SERIAL", "SerialMonitor.write returns str(value) and sends exactly (str(value)+newline).encode('utf-8') once, only on an open port; read validates `emit` before anything else", floor=5)
-    wr = ser.func("SerialMonitor.write")
-    wloc = Locals(wr)
-    rets = [n for n in walk_local(wr) if isinstance(n, ast.Return)]
-    for ret in rets:
-        v = wloc.resolve(ret.value)
-        okv = norm(v) in ("f'{value}'", "str(value)", "format(value)")
-        r.check(okv, "SerialMonitor.write/returns-str(value)", (ser, ret), f"write() returns `{norm(v)}`")
-    sends = [c for c in calls_in(wr) if isinstance(c.func, ast.Attribute) and c.func.attr == "write" and "_serial" in norm(c.func.value)]
-    cc = CallCount(lambda c: c in sends).run_function(wr, (0, 0))
-    ex = exits_of(cc, wr)
-    r.check(bool(ex) and all(e[1] <= 1 for e in ex) and any(e[1] == 1 for e in ex), "SerialMonitor.write/sends-at-most-once", (ser, wr), f"payload sends per path: {ex}")
-    for c in sends:
-        p = wloc.resolve(c.args[0]) if c.args else None
-        txt = norm(p) if p is not None else ""
-        inner = txt
-        for name, d in wloc.defs.items():
-            if len(d) == 1 and isinstance(d[0], ast.expr) and name != "payload":
-                inner = inner.replace(f"({name} ", f"(({norm(d[0])}) ").replace(f"{name} +", f"({norm(d[0])}) +")
-        okp = txt in ("(text + self.newline).encode('utf-8')", "f'{text}{self.newline}'.encode('utf-8')") and norm(wloc.resolve(ast.Name(id="text", ctx=ast.Load()))) in ("f'{value}'", "str(value)")
-        r.check(okp, "SerialMonitor.write/payload=str(value)+newline-utf8", (ser, c), f"payload is `{txt}`")
-        from ..flow import lexical_conds
-        atoms = {t_ for t_, v_ in lexical_conds(ser, c) if v_}
-        guarded = "self._serial is not None" in atoms and "self._serial.is_open" in atoms    # both conjuncts hold where the payload is sent
-        r.check(guarded, "SerialMonitor.write/only-on-open-port", (ser, c), "payload is sent without checking that a port is open")
-    rd = ser.func("SerialMonitor.read")
-    body = [s for s in rd.body if not (isinstance(s, ast.Expr) and isinstance(s.value, ast.Constant))]
-    okf = isinstance(body[0], ast.If) and "emit" in norm(body[0].test) and any(isinstance(x, ast.Raise) for x in body[0].body)
-    r.check(okf, "SerialMonitor.read/validates-emit-first", (ser, body[0]), "read() must reject an invalid emit value before touching the port")
 
 
 def rule_sensors(cx, rid):
@@ -316,7 +247,7 @@ def rule_sensors(cx, rid):
     ult = mod("Sensors/Ultrasonic.py")
     for m in (btn, pot, ult):
         cx.consulted(m)
-    r = cx.rule(rid, "Button.is_pressed samples its signal once, fires on_click under (pressed and not previous) before updating the previous sample; Potentiometer.read / Ultrasonic.measure_distance return the provider's value (or the default) only after the 0..1023 / non-negative range check", floor=10)
+    r = cx.rule(rid, "Button.is_pressed samples its signal once, fires on_click under (pressed and not previous) before updating the previous sample; what the sensors return and raise is decided by evaluation in the INPUTS rule", floor=6)
     bc = btn.cls("Button")
     meths = {f.name: f for f in bc.body if isinstance(f, ast.FunctionDef)}
     ip = meths.get("is_pressed")
@@ -385,34 +316,214 @@ def rule_sensors(cx, rid):
             r.check("stored_prev" not in alt, "Button.is_pressed/edge-test-before-update", (btn, s), "the previous sample is overwritten before the edge test")
     for s, st in stores:
         r.check(norm(s.value) in ("pressed", "self.pressed"), "Button.is_pressed/stores-current-sample", (btn, s), f"_was_pressed is set to `{norm(s.value)}`")
-    # Potentiometer.read
-    pr = pot.func("Potentiometer.read")
-    pcls = pot.cls("Potentiometer")
-    tr = CondTrace(lambda s: isinstance(s, ast.Return))
-    tr.run_function(pr, frozenset({frozenset()}))
-    for ret, st in tr.hits:
-        subj = norm(ret.value.args[0]) if isinstance(ret.value, ast.Call) and call_name(ret.value) == "int" and ret.value.args else norm(ret.value)
-        for alt in st:
-            iv = Iv()
-            for f in alt:
-                if isinstance(f, tuple) and f[0] == "c" and f[1] in tr.tests:
-                    iv = iv.meet(bounds_of(tr.tests[f[1]], f[2], subj, pot, pcls))
-            r.check(iv.lo == 0 and iv.hi == 1023 and not iv.lo_s and not iv.hi_s, "Potentiometer.read/returns-only-0..1023", (pot, ret), f"read() can return `{subj}` in {iv}; documented range is [0, 1023]")
-        vdefs = Locals(pr).defs.get(subj, [])
-        okf = any("_value_provider()" in norm(d) for d in vdefs if isinstance(d, ast.expr)) and any(isinstance(d, ast.Constant) and d.value == 0 for d in vdefs)
-        r.check(okf, "Potentiometer.read/value=provider-or-0", (pot, ret), "returned value must be the provider's value, 0 without a provider")
-    md = ult.func("UltrasonicSensor.measure_distance")
-    tr = CondTrace(lambda s: isinstance(s, ast.Return))
-    tr.run_function(md, frozenset({frozenset()}))
-    for ret, st in tr.hits:
-        subj = norm(ret.value.args[0]) if isinstance(ret.value, ast.Call) and call_name(ret.value) == "float" and ret.value.args else norm(ret.value)
-        for alt in st:
-            iv = Iv()
-            for f in alt:
-                if isinstance(f, tuple) and f[0] == "c" and f[1] in tr.tests:
-                    iv = iv.meet(bounds_of(tr.tests[f[1]], f[2], subj, ult))
-            r.check(iv.lo == 0 and not iv.lo_s and iv.hi == float("inf"), "Ultrasonic.measure_distance/returns-only-non-negative", (ult, ret), f"measure_distance() can return `{subj}` in {iv}; expected [0, inf)")
-        vdefs = Locals(md).defs.get(subj, [])
-        okf = any("_distance_provider()" in norm(d) for d in vdefs if isinstance(d, ast.expr)) and any("_default_distance" in norm(d) for d in vdefs if isinstance(d, ast.expr))
-        r.check(okf, "Ultrasonic.measure_distance/value=provider-or-default", (ult, ret), "returned value must be the provider's value or the default distance")
+    return r
 
+
+def rule_pin_memory(cx, core, rid="C20-MEMORY"):
+    """the Core pin simulation evaluated (checker's interpreter; the module's pin dictionaries shared between the calls of
+    one history) against a reference memory on every history of up to three operations: the statement of the property,
+    not the spelling of the five functions"""
+    import itertools
+    r = cx.rule(rid, "every history of up to 3 Core operations (pin_mode / digital_write / analog_write on pins 7, '7', 8 and 'A0', in-range, boundary and out-of-range values) followed by reads of every pin: digital_read/analog_read return the last value written to that pin (7 and '7' are one pin; analog clamped to 0..255, digital HIGH iff truthy), an unwritten INPUT_PULLUP pin reads HIGH, every other unwritten pin LOW/0, other pins are unaffected", floor=5000, exhaustive=True)
+    state_names = [n for n, v in core.consts.items() if (isinstance(v, ast.Dict) and not v.keys) or (isinstance(v, ast.Call) and call_name(v) == "dict" and not v.args and not v.keywords)]
+    if not state_names:
+        raise AnalysisError("Core keeps its pin state in no module-level dictionary this rule can share between calls")
+    fns = {q: core.func(q) for q in ("pin_mode", "digital_write", "analog_write", "digital_read", "analog_read")}
+    HIGH_, LOW_ = try_const(ast.Name(id="HIGH"), core), try_const(ast.Name(id="LOW"), core)
+    PULL = try_const(ast.Name(id="INPUT_PULLUP"), core)
+    OUT = try_const(ast.Name(id="OUTPUT"), core)
+    INP = try_const(ast.Name(id="INPUT"), core)
+    if None in (HIGH_, LOW_, PULL, OUT, INP):
+        raise AnalysisError("Core constants HIGH/LOW/INPUT/OUTPUT/INPUT_PULLUP not found")
+    r.check(HIGH_ == 1 and LOW_ == 0, "Core/HIGH=1,LOW=0", (core.rel, 1), f"HIGH={HIGH_!r} LOW={LOW_!r}")
+    key = lambda p_: int(p_) if isinstance(p_, str) and p_.isdigit() else p_
+
+    def reference(hist, pins):
+        modes, dig, ana = {}, {}, {}
+        for op, (p_, v_) in hist:
+            k_ = key(p_)
+            if op == "pin_mode":
+                modes[k_] = v_
+            elif op == "digital_write":
+                dig[k_] = HIGH_ if v_ else LOW_
+            else:
+                ana[k_] = max(0, min(255, int(round(float(v_)))))
+        out = {}
+        for p_ in pins:
+            k_ = key(p_)
+            out[("digital_read", p_)] = dig[k_] if k_ in dig else (HIGH_ if modes.get(k_) == PULL else LOW_)
+            out[("analog_read", p_)] = ana.get(k_, 0)
+        return out
+
+    def run_hist(hist, pins):
+        st = {n_: {} for n_ in state_names}
+        it = dl.Interp(core, extra_env=st)
+        try:
+            for op, args in hist:
+                o = it.call(fns[op], list(args))
+                if o.kind != "return":
+                    return None, f"{op}{args} raises {o.value}"
+            got = {}
+            for p_ in pins:
+                for rd in ("digital_read", "analog_read"):
+                    o = it.call(fns[rd], [p_])
+                    got[(rd, p_)] = o.value if o.kind == "return" else f"<raises {o.value}>"
+            return got, None
+        except dl.Unsupported as e:
+            raise AnalysisError(f"Core left the evaluable subset: {e}")
+
+    small_pins = [7, "7", 8]
+    small = [("pin_mode", (p_, m_)) for p_ in small_pins for m_ in (PULL, OUT)] + [("digital_write", (p_, v_)) for p_ in small_pins for v_ in (0, 1)] + [("analog_write", (p_, v_)) for p_ in small_pins for v_ in (-5, 300)]
+    rich_pins = [7, "7", 8, "A0"]
+    rich = [("pin_mode", (p_, m_)) for p_ in rich_pins for m_ in (PULL, OUT, INP)] + [("digital_write", (p_, v_)) for p_ in rich_pins for v_ in (0, 1, True, False, 5)] + \
+           [("analog_write", (p_, v_)) for p_ in rich_pins for v_ in (-5, 0, 127.6, 128.5, 255, 300, True)]
+    n_bad = 0
+    for hists, pins in ((itertools.chain([()], ((a,) for a in rich), itertools.product(rich, repeat=2)), rich_pins), (itertools.product(small, repeat=3), small_pins)):
+        for h in hists:
+            got, err = run_hist(h, pins)
+            want = reference(h, pins)
+            if err is None and got == want:
+                r.ok(None)
+                continue
+            n_bad += 1
+            if n_bad <= 4:
+                diff = err or "; ".join(f"{rd}({p_!r}) -> {got[(rd, p_)]!r}, the memory model gives {want[(rd, p_)]!r}" for (rd, p_) in want if got[(rd, p_)] != want[(rd, p_)])[:300]
+                hist_txt = "; ".join(f"{op}({a_!r}, {b_!r})" for op, (a_, b_) in h) or "(no operation)"
+                ops_key = "+".join(sorted({op for op, _a in h})) or "none"
+                r.fail(f"pin-memory/history[{ops_key}]", (core, fns[h[-1][0]] if h else fns["digital_read"]), f"after {hist_txt}: {diff}", detail={"history": [[op, list(map(repr, a_))] for op, a_ in h]})
+            else:
+                r.stat.obligations += 1
+                r.stat.failed += 1
+    return r
+
+
+def rule_host_inputs_eval(cx, rid):
+    """the host-side input helpers evaluated on the classes themselves (checker's interpreter; providers, handlers and the
+    serial port are recorder objects of the checker) over value grids and short histories - what they return, raise and
+    send, not how they are spelled"""
+    import itertools
+    from . import c04
+    btn, pot, ult, ser = mod("Sensors/Button.py"), mod("Sensors/Potentiometer.py"), mod("Sensors/Ultrasonic.py"), mod("Communication/SerialMonitor.py")
+    for m in (btn, pot, ult, ser):
+        cx.consulted(m)
+    r = cx.rule(rid, "Potentiometer.read returns int(provider()) sampled once (0 without a provider) and raises ValueError outside 0..1023; UltrasonicSensor.measure_distance returns float(provider()) sampled once (the default without a provider) and raises ValueError for negatives; Button driven through set_pressed fires on_click exactly on the polls that see pressed after a poll that saw released and is_pressed returns the level; SerialMonitor.write returns str(value) and sends (str(value)+newline) utf-8 encoded exactly once iff the port is open; read refuses a bad emit before touching the port", floor=150, exhaustive=True)
+
+    def provider(values, log):
+        def p_():
+            log.append(1)
+            return values[min(len(log) - 1, len(values) - 1)]
+        p_._dl_lambda = True
+        return p_
+
+    def call(m_, q_, args, **kw):
+        try:
+            return dl.Interp(m_, **kw).call(m_.func(q_), args)
+        except dl.Unsupported as e:
+            raise AnalysisError(f"host {q_} left the evaluable subset: {e}")
+
+    # Potentiometer
+    for v in (-1, 0, 1, 512, 1023, 1024, 5000, 3.9, 1023.9, -0.5, True):
+        log = []
+        o = c04.host_object(pot, "Potentiometer", "A0", value_provider=provider([v], log))
+        out = call(pot, "Potentiometer.read", [o])
+        iv_ = int(v)
+        if 0 <= iv_ <= 1023:
+            ok = out.kind == "return" and out.value == iv_ and type(out.value) is int and len(log) == 1
+        else:
+            ok = out.kind == "raise" and out.value == "ValueError" and len(log) == 1
+        r.check(ok, "Potentiometer.read/provider-value-in-range-or-ValueError", (pot, pot.func("Potentiometer.read")), f"provider gives {v!r}: read() -> {out!r} after sampling it {len(log)} time(s); expected {'int ' + str(iv_) if 0 <= iv_ <= 1023 else 'ValueError'}, one sample", sample=f"pot {v!r}")
+    o = c04.host_object(pot, "Potentiometer", "A3")
+    out = call(pot, "Potentiometer.read", [o])
+    r.check(out.kind == "return" and out.value == 0, "Potentiometer.read/no-provider-reads-0", (pot, pot.func("Potentiometer.read")), f"without a provider read() -> {out!r}")
+    # Ultrasonic
+    for v in (-1, -0.5, 0, 0.0, 12.5, 400, 7, 1e6):
+        log = []
+        o = c04.host_object(ult, "UltrasonicSensor", 2, 3, distance_provider=provider([v], log), default_distance=33.0)
+        out = call(ult, "UltrasonicSensor.measure_distance", [o])
+        if v >= 0:
+            ok = out.kind == "return" and out.value == float(v) and type(out.value) is float and len(log) == 1
+        else:
+            ok = out.kind == "raise" and out.value == "ValueError" and len(log) == 1
+        r.check(ok, "Ultrasonic.measure_distance/provider-value-or-ValueError", (ult, ult.func("UltrasonicSensor.measure_distance")), f"provider gives {v!r}: measure_distance() -> {out!r} after {len(log)} sample(s)", sample=f"ultra {v!r}")
+    for d_ in (0.0, 25, 400.5):
+        o = c04.host_object(ult, "UltrasonicSensor", 2, 3, default_distance=d_)
+        out = call(ult, "UltrasonicSensor.measure_distance", [o])
+        r.check(out.kind == "return" and out.value == float(d_), "Ultrasonic.measure_distance/no-provider-gives-default", (ult, ult.func("UltrasonicSensor.measure_distance")), f"default {d_!r}: -> {out!r}")
+    # Button through set_pressed: every history of up to 6 operations over {press, release, poll}, starting released
+    n_bad = 0
+    for L in range(1, 7):
+        for hist in itertools.product(("press", "release", "poll"), repeat=L):
+            if "poll" not in hist:
+                continue
+            clicks = []
+            cb_ = lambda _c=clicks: _c.append(1)
+            cb_._dl_lambda = True
+            o = c04.host_object(btn, "Button", 7, on_click=cb_)
+            level, prev, want_clicks, want_vals, vals, bad = False, False, 0, [], [], None
+            for op in hist:
+                if op == "poll":
+                    out = call(btn, "Button.is_pressed", [o])
+                    if out.kind != "return":
+                        bad = f"is_pressed raises {out.value}"
+                        break
+                    vals.append(out.value)
+                    want_vals.append(1 if level else 0)
+                    if level and not prev:
+                        want_clicks += 1
+                    prev = level
+                else:
+                    level = op == "press"
+                    out = call(btn, "Button.set_pressed", [o, level])
+                    if out.kind != "return":
+                        bad = f"set_pressed raises {out.value}"
+                        break
+            if bad is None and (len(clicks) != want_clicks or vals != want_vals):
+                bad = f"on_click ran {len(clicks)} time(s) and is_pressed returned {vals}; the sampled signal has {want_clicks} rising edge(s) and levels {want_vals}"
+            if bad is None:
+                r.ok(None)
+            else:
+                n_bad += 1
+                if n_bad <= 3:
+                    r.fail("Button/clicks=rising-edges-of-the-sampled-level", (btn, btn.func("Button.is_pressed")), f"history {' '.join(hist)}: {bad}", detail={"history": list(hist)})
+                else:
+                    r.stat.obligations += 1
+                    r.stat.failed += 1
+
+    # SerialMonitor
+    class _Port(dl.Synth):
+        __dl_native__ = True
+
+        def __init__(self, is_open):
+            self.is_open = is_open
+            self.sent = []
+            self.calls = []
+
+        def write(self, payload):
+            self.sent.append(payload)
+            return len(payload)
+
+        def readline(self):
+            self.calls.append("readline")
+            return b""
+
+        def close(self):
+            self.is_open = False
+
+    for nl in ("\n", "\r\n", ""):
+        for v in ("hi", 12, 2.5, None, True, "a\nb", "café", "", "done\n", "\n", "x\r\n", "\r"):
+            for port_state in ("open", "closed", "none"):
+                o = c04.host_object(ser, "SerialMonitor", 9600, None, 1.0, nl)
+                port = None if port_state == "none" else _Port(port_state == "open")
+                o._serial = port
+                out = call(ser, "SerialMonitor.write", [o, v])
+                want_sent = [(str(v) + nl).encode("utf-8")] if port_state == "open" else []
+                got_sent = port.sent if port is not None else []
+                ok = out.kind == "return" and out.value == str(v) and got_sent == want_sent
+                r.check(ok, f"SerialMonitor.write/returns-str-and-sends-once-iff-open[{port_state}]", (ser, ser.func("SerialMonitor.write")), f"write({v!r}) with newline {nl!r} on a port that is {port_state}: -> {out!r}, sent {got_sent}; expected {str(v)!r} and {want_sent}", sample=f"serial {v!r}/{port_state}")
+    for em in ("nonsense", "", "HOST", None):
+        o = c04.host_object(ser, "SerialMonitor", 9600, None, 1.0, "\n")
+        port = _Port(True)
+        o._serial = port
+        out = call(ser, "SerialMonitor.read", [o, em], opaque={"print": lambda *a_, **k_: None})
+        r.check(out.kind == "raise" and out.value == "ValueError" and not port.calls, "SerialMonitor.read/validates-emit-first", (ser, ser.func("SerialMonitor.read")), f"read(emit={em!r}) -> {out!r} after port calls {port.calls}; an invalid emit must be refused before the port is touched")
+    return r
